@@ -817,8 +817,10 @@ func E6ScannerSites(c *core.Ctx, r *core.Report) {
 			return true
 		}
 		calls++
-		if core.AlphaContains(",float64($size.Y),$r.resolution)", c.Norm(rp, call)) {
+		if core.AlphaContains(",float64($size.Y),$r.resolution)", c.Norm(rp, call)) && isRectHeight(rp.TypesInfo, rfd, call.Args[1]) {
 			good++
+		} else if !isRectHeight(rp.TypesInfo, rfd, call.Args[1]) {
+			r.Fail("E6.scanner-site", fmt.Sprintf("renderers/rasterizer.Rasterizer.RenderPath|ToScanxScanner call #%d|height of the image rectangle", calls), c.Pos(call.Pos()), fmt.Sprintf("the flip height `%s` is not the height of the image's rectangle (Bounds().Size().Y or Bounds().Dy()): the scanner addresses pixels relative to the rectangle's Min, so with Bounds().Max.Y everything drawn on an image whose rectangle does not start at the origin (a SubImage) is shifted down by Min.Y", c.Src(call.Args[1])))
 		}
 		return true
 	})
@@ -2259,4 +2261,52 @@ func exprReadsFillRule(info *types.Info, e ast.Expr) bool {
 		return true
 	})
 	return found
+}
+
+// isRectHeight: e is float64(v.Y) with v assigned only from image.Rectangle.Size(), or float64(X.Dy()).
+func isRectHeight(info *types.Info, fd *ast.FuncDecl, e ast.Expr) bool {
+	e = core.Unparen(e)
+	if call, ok := e.(*ast.CallExpr); ok && len(call.Args) == 1 {
+		if tv, ok := info.Types[call.Fun]; ok && tv.IsType() {
+			e = core.Unparen(call.Args[0])
+		}
+	}
+	isImageMethod := func(x ast.Expr, name string) bool {
+		call, ok := core.Unparen(x).(*ast.CallExpr)
+		if !ok {
+			return false
+		}
+		f := core.CalleeOf(info, call)
+		return f != nil && f.Name() == name && f.Pkg() != nil && f.Pkg().Path() == "image"
+	}
+	if isImageMethod(e, "Dy") {
+		return true
+	}
+	se, ok := e.(*ast.SelectorExpr)
+	if !ok || se.Sel.Name != "Y" {
+		return false
+	}
+	if isImageMethod(se.X, "Size") {
+		return true
+	}
+	id, ok := core.Unparen(se.X).(*ast.Ident)
+	if !ok {
+		return false
+	}
+	o := core.ObjOf(info, id)
+	n, good := 0, 0
+	ast.Inspect(fd.Body, func(k ast.Node) bool {
+		if as, ok := k.(*ast.AssignStmt); ok && len(as.Lhs) == len(as.Rhs) {
+			for i, l := range as.Lhs {
+				if lid, ok := l.(*ast.Ident); ok && core.ObjOf(info, lid) == o {
+					n++
+					if isImageMethod(as.Rhs[i], "Size") {
+						good++
+					}
+				}
+			}
+		}
+		return true
+	})
+	return n > 0 && n == good
 }
